@@ -22,7 +22,7 @@ Module T := CstText.
 Ltac tcls := unfold T.is_tplain, T.is_digit, Cst.is_ws, Cst.is_name_char, Cst.is_name_start,
   byte_is_char, byte_is_space, byte_is_name_start, byte_is_name, in_ranges,
   byte_space_ranges, byte_name_start_ranges, byte_name_ranges, byte_char_gt,
-  is_ascii_digit, is_ascii_hexdigit in *;
+  is_ascii_hexdigit, is_ascii_digit in *;
   cbn [existsb fst snd] in *.
 
 Lemma tplain_char x : T.is_tplain x = true -> x < 128 /\ char_is_char x = true /\ byte_is_char x = true.
@@ -231,7 +231,7 @@ Qed.
 
 Lemma digit_filter hex ds : forallb (T.is_digit hex) ds = true ->
   forallb (if hex then is_ascii_hexdigit else is_ascii_digit) ds = true.
-Proof. destruct hex; apply forallb_imp; intros x Hx; tcls; cbn [andb orb] in *; lia. Qed.
+Proof. destruct hex; apply forallb_imp; intros x Hx; unfold T.is_digit, is_ascii_hexdigit, is_ascii_digit in *; lia. Qed.
 
 Lemma cref_charref e p hex ds more : W p (T.r_piece (T.PCharRef hex ds) ++ more) -> T.wf_charref hex ds = true ->
   p + blen (T.r_piece (T.PCharRef hex ds)) <= e -> e <= tlen text ->
@@ -246,7 +246,7 @@ Proof.
   destruct Hd0 as (x0 & r0 & Eds & Hx0).
   unfold consume_reference.
   assert (Lall : p + 2 + blen (if hex then [120] else []) + blen ds + 1 <= e).
-  { rewrite !blen_app, !blen_cons, blen_nil in He. lia. }
+  { rewrite !blen_app, !blen_cons, blen_nil in He. clear - He. generalize dependent (blen (if hex then [120] else [])). intros; lia. }
   rewrite try_yes by lia. rewrite try_yes by lia. cbn [negb].
   pose proof (W_cons _ _ _ _ (W_cons _ _ _ _ HW)) as HW2.
   replace (p + 1 + 1) with (p + 2) in * by lia.
